@@ -96,8 +96,8 @@ Sem(x) == << Flat(x.tenant), x.partial,
              IF x.kind \in {"labels", "series"} THEN Rng(x.matchers) ELSE {} >>
 SemTab == [i \in 1..N |-> Sem(RS[i])]
 SlotTab == [i \in 1..N |-> <<RS[i].kind, RS[i].split, RS[i].start \div RS[i].split>>]
-InSlices(x) == x \notin (IF Big THEN BigRange \ (SliceTenantQuery \cup SliceTail \cup SliceTyped \cup SliceQueryTail \cup SliceUncached) ELSE {})
-SliceTab == [i \in 1..N |-> InSlices(RS[i])]
+SliceSet == SliceTenantQuery \cup SliceTail \cup SliceTyped \cup SliceQueryTail \cup SliceUncached \cup LabelsReqs \cup SeriesReqs
+SliceTab == [i \in 1..N |-> RS[i] \in SliceSet]
 OneOrNoDiff(i, j) == Cardinality({ k \in 1..8 : SemTab[i][k] # SemTab[j][k] }) <= 1
 (* the known-finding classes are not empty words: each class really collides.  Only requests that  *)
 (* agree on every keyed parameter can be in a known-finding class (cheap pre-filter).               *)
